@@ -135,7 +135,11 @@ def gen_synthetic(rng):
                 after += zl
 
     def dt(z=True):
-        w = f"{rng.choice([1960, 1985, 2020, 2024, 2037]):04}{rng.randint(1, 12):02}{rng.randint(1, 28):02}T{rng.randint(0, 23):02}{rng.choice([0, 30]):02}00"
+        w = f"{rng.choice([1960, 1985, 2020, 2020, 2024, 2024, 2037, 1, 9999]):04}{rng.randint(1, 12):02}{rng.randint(1, 28):02}T{rng.randint(0, 23):02}{rng.choice([0, 30]):02}00"
+        if w.startswith("0001"):
+            w = "00010101T" + w[9:]          # the first and the last day there is
+        elif w.startswith("9999"):
+            w = "99991231T" + w[9:]
         r = rng.random()
         if not z or r < 0.3:
             return "", w
